@@ -81,7 +81,7 @@ SPEC = {
     "C06": {
         "LEAN": {"modules": ["GfaProofs.Bridge.Geometry", "GfaProofs.Bridge.Cigar", "GfaProofs.C06"],
                  "support": ["GfaModel.Convert", "GfaProofs.C11", "GfaProofs.C12"],
-                 "theorems": ["Gfa.C06.swapped_edge_same_link", "Gfa.C06.swapRoles_swapRoles", "Gfa.C06.swapRoles_lens", "Gfa.C06.link_intervals", "Gfa.C06.link_touches", "Gfa.C06.link_to_edge_is_dovetail", "Gfa.C06.l_e_l",
+                 "theorems": ["Gfa.C06.swapped_edge_same_link", "Gfa.C06.swapRoles_swapRoles", "Gfa.C06.swapRoles_lens", "Gfa.C06.link_intervals", "Gfa.C06.link_touches", "Gfa.C06.link_to_edge_is_dovetail", "Gfa.C06.l_e_l", "Gfa.C06.c_e_c", "Gfa.C06.e_to_l", "Gfa.C06.e_l_e",
                               "Gfa.C06.compl_same_geometry", "Gfa.C06.containment_to_edge",
                               "Gfa.C12.refLen_compl", "Gfa.C12.queryLen_compl",
                               "Gfa.Bridge.Geometry.substringType_eq", "Gfa.Bridge.Geometry.segmentRole_table",
